@@ -336,6 +336,7 @@ def judgeSched (st0 : SchedSt) (fields : List String) : SchedSt × String :=
         | some s1 => ({ st with s := s1, purged := k :: st.purged, deleted := if d = "1" then k :: st.deleted else st.deleted,
                                 liveEntry := st.liveEntry.filter (·.1 ≠ k) }, "ok purge 1")
       | none => (st, "BADLINE sched purge")
+    | ["purge-other", _k] => (st, "ok purge-other 1")   -- a purge naming an unknown cache is a no-op (C18.unknown_cache_noop)
     | ["reload"] => (st, "ok reload 1")   -- an unchanged cache survives a reload untouched (C16.surviving_cache_identity)
     | ["crash"] =>
       match stepM st .crash with
